@@ -1987,3 +1987,51 @@ fn main() {}
 
 
 CERTS["uri_authority_compose"] = lambda: authority_compose_cert(dfa.reference("rfc3986.abnf", "authority"), dfa.reference("rfc3986.abnf", "userinfo"), dfa.reference("rfc3986.abnf", "host"), dfa.reference("rfc3986.abnf", "port"))
+
+
+def shapes_cert():
+    """the structural shapes the contracts take as preconditions follow from language membership: a valid path has no
+    '?' '#', a valid segment no '/' '?' '#', a valid query no '#', a valid authority no '/' '?' '#', a valid scheme is
+    non-empty without ':' '/' '?' '#'"""
+    items = [("Path", "path", QF), ("Segment", "segment", SQF), ("Query", "query", {HASH}), ("Authority", "authority", SQF), ("Scheme", "scheme", CSQF),
+             ("UserInfo", "userinfo", {AT, LB}), ("Port", "port", {AT, LB})]
+    src = PRELUDE
+    n = 0
+    for name, prod, stops in items:
+        B = dfa.reference("rfc3986.abnf", prod)
+        assert all(B.step(b, d) < 0 for b in range(B.n) for d in stops), name
+        src += "// %s: %d states\n" % (name, B.n) + dfa._step_spec(name, B) + "\n" + RUN.format(n=name)
+        src += """
+proof fn %(B)s_nostop(b: int, c: int)
+    requires b >= 0, %(B)s_step(b, c) >= 0,
+    ensures !%(st)s,
+{ }
+/// FACT: a valid %(B)s contains none of its delimiters
+pub proof fn comp_%(b)s_shape(t: Seq<int>, q: int)
+    requires q >= 0, %(B)s_run(q, t),
+    ensures forall|i: int| 0 <= i < t.len() ==> !%(sti)s,
+    decreases t.len()
+{
+    if t.len() > 0 {
+        let c = t[0];
+        if %(B)s_step(q, c) < 0 { %(B)s_dead(t.drop_first()); }
+        %(B)s_nostop(q, c);
+        comp_%(b)s_shape(t.drop_first(), %(B)s_step(q, c));
+        assert forall|i: int| 0 <= i < t.len() implies !%(sti)s by { if i > 0 { assert(t[i] == t.drop_first()[i - 1]); let j = i - 1; assert(!%(stj)s); } }
+    }
+}
+""" % {"B": name, "b": prod, "st": _in_set("c", stops), "sti": _in_set("#[trigger] t[i]", stops), "stj": _in_set("t.drop_first()[j]", stops)}
+        n += 2
+    src += """
+/// FACT: a valid scheme is not empty
+pub proof fn comp_scheme_nonempty(t: Seq<int>)
+    requires Scheme_run(0, t),
+    ensures t.len() > 0,
+{ }
+} // verus!
+fn main() {}
+"""
+    return src, {"pairs": 0, "lemmas": n + 1}
+
+
+CERTS["uri_shapes"] = shapes_cert
